@@ -143,15 +143,16 @@ theorem headerStep_range (st : HState) (l : Bytes) (strip : Int) (f : NoKeyword 
   unfold bodyStart at hb
   simp only [hg, hf, hb, hp, if_true, if_false, Bool.false_eq_true]
 
-/-- the line after a unified range line that starts like a body line: the scan stops, the format is unified and the
-    two names / time stamps are swapped back -/
+/-- the line after a unified range line that starts like a body line: the scan stops, the format is unified, the
+    two names / time stamps are swapped back and the first hunk is marked as found -/
 theorem headerStep_first (st : HState) (l : Bytes) (strip : Int) (f : NoKeyword l) (hg : st.isGit = false)
     (hf : st.patch.format = .unknown ∨ st.patch.format = .unified)
     (hl : st.thisLooks = .unified) (hb : bodyStart l) :
     headerStep st l strip =
-      .ok ({ entered st with patch := { st.patch with oldPath := st.patch.newPath, newPath := st.patch.oldPath,
-                                                       oldTime := st.patch.newTime, newTime := st.patch.oldTime,
-                                                       format := .unified } }, false) := by
+      .ok ({ entered st with
+              patch := { st.patch with oldPath := st.patch.newPath, newPath := st.patch.oldPath,
+                                       oldTime := st.patch.newTime, newTime := st.patch.oldTime, format := .unified },
+              foundFirstHunk := true }, false) := by
   rw [headerStep_tail st l strip f]
   unfold Cost.hdrTail Cost.hdrUnified
   unfold bodyStart at hb
@@ -199,7 +200,8 @@ theorem headerLoop_unified (strip : Int) (st : HState) (old new oldt newt : Byte
     (hold : plainName old) (hnew : plainName new) (hot : oldt ≠ []) (hnt : newt ≠ []) (hr : rangeOk h)
     (hb : bodyStart first.content) (hm : ¬ startsWith first.content "--- ") (hp : ¬ startsWith first.content "+++ ")
     (hterm : first.newline ≠ .none)
-    (hg : st.isGit = false) (hf : st.patch.format = .unknown) (heof : st.par.s.eof = false) (hbad : st.par.s.bad = false)
+    (hg : st.isGit = false) (hf : st.patch.format = .unknown ∨ st.patch.format = .unified)
+    (heof : st.par.s.eof = false) (hbad : st.par.s.bad = false)
     (hrest : st.par.s.rest = ⟨str "--- " ++ old ++ [TAB] ++ oldt, .lf⟩ :: ⟨str "+++ " ++ new ++ [TAB] ++ newt, .lf⟩ ::
                                ⟨Unified.rangeText h, .lf⟩ :: first :: more) :
     headerLoop strip (fuel + 4) st =
@@ -207,7 +209,8 @@ theorem headerLoop_unified (strip : Int) (st : HState) (old new oldt newt : Byte
                     patch := { st.patch with format := .unified, oldPath := stripped old strip, newPath := stripped new strip,
                                              oldTime := oldt, newTime := newt },
                     lines := st.lines + 4, thisLooks := .unknown,
-                    hunk := { st.hunk with old := h.old, new := h.new }, ltfh := st.lines + 3 } := by
+                    hunk := { st.hunk with old := h.old, new := h.new }, ltfh := st.lines + 3,
+                    foundFirstHunk := true } := by
   obtain ⟨⟨⟨r0, e0, b0⟩, n0⟩, p, tl, li, g, sb, hk, lt⟩ := st
   simp only at hg hf heof hbad hrest
   subst hg heof hbad hrest
@@ -233,12 +236,12 @@ theorem headerLoop_unified (strip : Int) (st : HState) (old new oldt newt : Byte
   -- line 3
   rw [show fuel + 2 = (fuel + 1) + 1 from rfl,
     headerLoop_step strip _ _ _ ⟨_, .lf⟩ _ rfl rfl rfl (by simp) true
-      (headerStep_range _ _ strip (noKeyword_rangeText h) rfl (Or.inl hf) _
+      (headerStep_range _ _ strip (noKeyword_rangeText h) rfl hf _
         (fun hh => not_bodyStart_rangeText h hh.2) (hrng _))]
   simp only [if_true]
   -- line 4
   rw [headerLoop_step strip _ _ _ first _ rfl rfl rfl hterm false
-      (headerStep_first _ _ strip (noKeyword_of_bodyStart hb hm hp) rfl (Or.inl hf) rfl hb)]
+      (headerStep_first _ _ strip (noKeyword_of_bodyStart hb hm hp) rfl hf rfl hb)]
   simp only [Bool.false_eq_true, if_false, stripped]
 
 /-! ### `parseHeader` on (filler +) the header of a unified diff -/
@@ -271,7 +274,8 @@ theorem parseHeader_unified (strip : Int) (par : Parser) (pt : Patch) (filler : 
     (hold : plainName old) (hnew : plainName new) (hot : oldt ≠ []) (hnt : newt ≠ []) (hr : rangeOk h)
     (hb : bodyStart first.content) (hm : ¬ startsWith first.content "--- ") (hp : ¬ startsWith first.content "+++ ")
     (hterm : first.newline ≠ .none)
-    (hf : pt.format = .unknown) (hop : pt.operation = .change) (heof : par.s.eof = false) (hbad : par.s.bad = false)
+    (hf : pt.format = .unknown ∨ pt.format = .unified) (hop : pt.operation = .change)
+    (heof : par.s.eof = false) (hbad : par.s.bad = false)
     (hrest : par.s.rest = filler ++ ⟨str "--- " ++ old ++ [TAB] ++ oldt, .lf⟩ :: ⟨str "+++ " ++ new ++ [TAB] ++ newt, .lf⟩ ::
                                ⟨Unified.rangeText h, .lf⟩ :: first :: more) :
     parseHeader par pt strip =
@@ -292,7 +296,7 @@ theorem parseHeader_unified (strip : Int) (par : Parser) (pt : Patch) (filler : 
     rw [hrest, ← hT]; simp only [List.length_append, List.length_cons]; omega
   unfold parseHeader
   rw [hlen, hskip, hloop]
-  simp only [advance, PStream.clear, PStream.seek, Bool.false_eq_true, if_false, hop, if_true]
+  simp only [advance, PStream.clear, PStream.seek, Bool.not_true, Bool.false_eq_true, if_false, hop, if_true]
   have hsk := skipLines_terminated
     (filler ++ [⟨str "--- " ++ old ++ [TAB] ++ oldt, .lf⟩, ⟨str "+++ " ++ new ++ [TAB] ++ newt, .lf⟩])
     (⟨Unified.rangeText h, .lf⟩ :: first :: more) { s := { rest := par.s.rest }, lineNo := par.lineNo } rfl rfl
@@ -311,5 +315,60 @@ theorem parseHeader_unified (strip : Int) (par : Parser) (pt : Patch) (filler : 
   split
   · rfl
   · split <;> rfl
+
+/-! ### a section that starts with a `diff --git` line -/
+
+/-- the first `diff --git` line of a section: the scan enters git mode, both names are the name on that line, and the line
+    itself belongs to the header (first-hunk line = the line after it) -/
+theorem headerStep_git_first (st : HState) (r : Bytes) (strip : Int) (hg : st.isGit = false) :
+    headerStep st (str "diff --git " ++ r) strip =
+      (parseGitHeaderName r strip).map fun name =>
+        ({ entered st with patch := { st.patch with oldPath := name, newPath := name, format := .unified },
+                           isGit := true, ltfh := st.lines + 2 }, true) := by
+  have hd : (str "diff --git " ++ r).head? = some 100 := by rw [str_git]; rfl
+  have h1 : consumeStr (str "*** ") (str "diff --git " ++ r) = none :=
+    consumeStr_none_of_startsWith (startsWith_false_of_head _ _ _ _ str_old4 (by rw [hd]; decide))
+  have h2 : consumeStr (str "+++ ") (str "diff --git " ++ r) = none :=
+    consumeStr_none_of_startsWith (startsWith_false_of_head _ _ _ _ str_plus4 (by rw [hd]; decide))
+  have h3 : consumeStr (str "--- ") (str "diff --git " ++ r) = none :=
+    consumeStr_none_of_startsWith (startsWith_false_of_head _ _ _ _ str_new4 (by rw [hd]; decide))
+  have h4 : consumeStr (str "Index: ") (str "diff --git " ++ r) = none :=
+    consumeStr_none_of_startsWith (startsWith_false_of_head _ _ _ _ str_index (by rw [hd]; decide))
+  have h5 : consumeStr (str "Prereq: ") (str "diff --git " ++ r) = none :=
+    consumeStr_none_of_startsWith (startsWith_false_of_head _ _ _ _ str_prereq (by rw [hd]; decide))
+  rw [Cost.headerStep_eq]
+  simp only [h1, h2, h3, h4, h5, ite_self, Unified.consumeStr_append, hg, Bool.false_eq_true, if_false]
+
+theorem getLine_first (par : Parser) (l : Line) (r : List Line) (heof : par.s.eof = false) (hbad : par.s.bad = false)
+    (hrest : par.s.rest = l :: r) : ∃ par1, par.getLine = (some l, par1) := by
+  unfold Parser.getLine PStream.getLine
+  by_cases hn : l.newline = .none
+  · exact ⟨_, by simp [heof, hbad, hrest, hn]; rfl⟩
+  · exact ⟨_, by simp [heof, hbad, hrest, hn]; rfl⟩
+
+/-- **a section whose first line is a `diff --git` line**: if the header scan succeeds at all (the name on the line may be
+    malformed), the result is a git patch, the `diff --git` line is part of the header and the parser is left strictly
+    after it — whatever follows (nothing, filler, the next `diff --git` line, …) -/
+theorem parseHeader_git_first (par : Parser) (pt : Patch) (strip : Int) (l : Line) (rest : List Line) (r : Bytes)
+    (heof : par.s.eof = false) (hbad : par.s.bad = false) (hrest : par.s.rest = l :: rest)
+    (hl : l.content = str "diff --git " ++ r)
+    (body : Bool) (p : Patch) (info : HeaderInfo) (par' : Parser)
+    (h : parseHeader par pt strip = .ok (body, p, info, par')) :
+    p.format = .git ∧ info.format = .git ∧ 2 ≤ info.linesTillFirstHunk ∧ par'.s.rest.length < par.s.rest.length := by
+  obtain ⟨st, hloop, _, _, _, _, hfmt⟩ := Cost.parseHeader_state par pt strip body p info par' h
+  have hgit : st.isGit = true := by
+    obtain ⟨par1, hgl⟩ := getLine_first par l rest heof hbad hrest
+    rw [headerLoop, show ({ par := par, patch := pt } : HState).par = par from rfl, hgl] at hloop
+    simp only [hl] at hloop
+    rw [headerStep_git_first _ _ _ rfl] at hloop
+    cases hn : parseGitHeaderName r strip with
+    | error e => rw [hn] at hloop; simp [Except.map] at hloop
+    | ok name =>
+      rw [hn] at hloop
+      simp only [Except.map] at hloop
+      exact Cost.headerLoop_isGit strip _ _ _ rfl hloop
+  have hg : p.format = .git := by rw [hfmt, hgit]; rfl
+  have := Cost.parseHeader_git par pt strip body p info par' h hg
+  exact ⟨hg, this.1, this.2.1, this.2.2⟩
 
 end PatchModel.Header
